@@ -40,9 +40,14 @@ theorem encodeFromBL_eq (deltaB : Style → Style → Str) (delta : Style → St
   | nil =>
     intro s l
     unfold encodeFromBL encodeFromL
-    split
-    · rw [b_sgrReset]; simp [bytesOfLToks, ltokBytes, tokBytes]
-    · rfl
+    rw [bytesOfLToks_append]
+    congr 1
+    · split
+      · simp [bytesOfLToks, osc8Bytes_eq]
+      · rfl
+    · split
+      · rw [b_sgrReset]; simp [bytesOfLToks, ltokBytes, tokBytes]
+      · rfl
   | cons c cs ih =>
     intro s l
     unfold encodeFromBL encodeFromL
@@ -271,6 +276,10 @@ theorem roundtrip_generic_L (f : Style → Seq → Except Panic Style) (delta : 
   | nil =>
     intro s l _ _
     unfold encodeFromL
+    rw [dropLinks_append]
+    have hl : dropLinks (if (l.url != []) = true then [LTok.link (osc8Payload {})] else []) = [] := by
+      split <;> rfl
+    rw [hl, List.nil_append]
     split
     · obtain ⟨s', h⟩ := hreset s
       simp only [dropLinks, sgrResetQ_eq, parseToks, h, List.map_nil]
@@ -311,9 +320,8 @@ theorem ss_roundtrip_generic_L (f : Style → Seq → Except Panic Style) (delta
   | nil =>
     intro s l _ _
     unfold encodeFromL
-    split
-    · simp [ssParseLToks]
-    · rfl
+    by_cases hu : (l.url != []) = true <;> by_cases hc : (s != {} || l != {}) = true <;>
+      simp [hu, hc, ssParseLToks]
   | cons c cs ih =>
     intro s l hs hcs
     have hc : c.cell.st.wf := hcs c (List.mem_cons_self ..)
@@ -374,11 +382,20 @@ theorem encodeFromL_mem (delta : Style → Style → List Seq) (P : Seq → Prop
     unfold encodeFromL
     constructor
     · intro q hq
-      split at hq
-      · simp at hq; subst hq; exact hreset
-      · simp at hq
+      simp only [List.mem_append] at hq
+      rcases hq with hq | hq
+      · split at hq <;> simp at hq
+      · split at hq
+        · simp at hq; subst hq; exact hreset
+        · simp at hq
     · intro p hp
-      split at hp <;> simp at hp
+      simp only [List.mem_append] at hp
+      rcases hp with hp | hp
+      · split at hp
+        · simp at hp; subst hp
+          exact osc8Payload_ok {} (by simp) (by simp)
+        · simp at hp
+      · split at hp <;> simp at hp
   | cons c cs ih =>
     intro s l hcs hlk
     obtain ⟨ih1, ih2⟩ := ih c.cell.st c.link (fun d hd' => hcs d (by simp [hd'])) (fun d hd' => hlk d (by simp [hd']))
@@ -402,5 +419,56 @@ theorem encodeFromL_mem (delta : Style → Style → List Seq) (P : Seq → Prop
         · simp at hp
       · cases hp
       · exact ih2 p hp
+
+/-! ### the hyperlink is closed at the end -/
+
+theorem osc8Payload_closed_iff (l : Link) : osc8Payload l = osc8Payload {} ↔ l.url = [] := by
+  constructor
+  · intro h
+    by_cases hu : l.url = []
+    · exact hu
+    · have := congrArg List.length h
+      simp [osc8Payload, hu] at this
+      cases hl : l.url with
+      | nil => exact absurd hl hu
+      | cons a b => rw [hl] at this; simp at this; omega
+  · intro h; simp [osc8Payload, h]
+
+theorem linkOpen_sgrs (b : Bool) (l : List Seq) (r : List LTok) :
+    linkOpen b (l.map (fun q => LTok.tok (.sgr q)) ++ r) = linkOpen b r := by
+  induction l with
+  | nil => rfl
+  | cons q l ih => simpa [linkOpen] using ih
+
+theorem linkOpen_encodeFromL (delta : Style → Style → List Seq) :
+    ∀ (cs : List LCell) (s : Style) (l : Link), linkOpen (decide (l.url ≠ [])) (encodeFromL delta s l cs) = false := by
+  intro cs
+  induction cs with
+  | nil =>
+    intro s l
+    unfold encodeFromL
+    by_cases hu : l.url = []
+    · have : (l.url != []) = false := by simp [hu]
+      simp only [this, Bool.false_eq_true, if_false, List.nil_append]
+      split <;> simp [linkOpen, hu]
+    · have : (l.url != []) = true := by simp [hu]
+      simp only [this, if_true, List.cons_append, List.nil_append, linkOpen]
+      split <;> simp [linkOpen]
+  | cons c cs ih =>
+    intro s l
+    unfold encodeFromL
+    rw [linkOpen_sgrs]
+    by_cases hu : l.url = c.link.url
+    · have hne : (l.url != c.link.url) = false := by simp [hu]
+      rw [hne, hu]
+      simp only [Bool.false_eq_true, if_false, List.nil_append, linkOpen]
+      exact ih c.cell.st c.link
+    · have : (l.url != c.link.url) = true := by simp [hu]
+      simp only [this, if_true, List.cons_append, List.nil_append, linkOpen]
+      have e : decide (osc8Payload c.link ≠ osc8Payload {}) = decide (c.link.url ≠ []) := by
+        have := osc8Payload_closed_iff c.link
+        by_cases h : c.link.url = [] <;> simp [h, this]
+      rw [e]
+      exact ih c.cell.st c.link
 
 end VaxisModel.Lemmas.SgrLinks
